@@ -1568,3 +1568,9 @@ VARIANTS += [
  IVb('blob-kept-pointer-found-flag-starts-set', 'flagged(blob/)', BLOB_NAME_KEPT.replace('\tfound := false\n', '\tfound := len(policyDoc.TrustPolicies) > 0\n').replace('\treturn selected.clone(), nil\n', '\tif selected == nil {\n\t\tselected = &policyDoc.TrustPolicies[0]\n\t}\n\treturn selected.clone(), nil\n'), BLOB_GLOBAL_KEPT),
  IVb('blob-kept-copy-name-fold', 'flagged(blob/by-name)', BLOB_NAME_KEPT.replace('if policyDoc.TrustPolicies[i].Name == policyName {', 'if strings.EqualFold(policyDoc.TrustPolicies[i].Name, policyName) {'), BLOB_GLOBAL_KEPT),
 ]
+
+# engine regression: a boolean accumulated with a short-circuit operator in a loop refers to itself through the branch that tests it
+VARIANTS += [
+ dict(name='benign-flag-accumulated-with-or', file='verifier/trustpolicy/oci.go', expect='silent',
+      find='\tvar wildcardPolicy *OCITrustPolicy\n', replace='\tseenWildcard := false\n\tfor _, st := range policyDoc.TrustPolicies {\n\t\tseenWildcard = seenWildcard || slices.Contains(st.RegistryScopes, trustpolicy.Wildcard)\n\t}\n\t_ = seenWildcard\n\tvar wildcardPolicy *OCITrustPolicy\n'),
+]
